@@ -648,8 +648,8 @@ def weave_fn(w, item_id, text, spec, log):
     others = [p for p in plist if p.get('at') != 'start']
     # several insertions at the same anchor must come out in listing order: "after" entries are
     # therefore woven last-to-first
-    afters = [p for p in others if 'after' in p or 'after_loop' in p]
-    rest = [p for p in others if not ('after' in p or 'after_loop' in p)]
+    afters = [p for p in others if 'after' in p or 'after_loop' in p or 'after_re' in p]
+    rest = [p for p in others if not ('after' in p or 'after_loop' in p or 'after_re' in p)]
     plist = rest + list(reversed(afters)) + list(reversed(starts))
     for p in plist:
         if p.get('at') == 'start':
@@ -679,6 +679,20 @@ def weave_fn(w, item_id, text, spec, log):
             continue
         anchor = p.get('after') or p.get('before')
         nth = p.get('nth', 1)
+        if p.get('after_re') or p.get('before_re'):
+            # anchor given as a regular expression (tolerates edits inside the anchored statement)
+            anchor = p.get('after_re') or p.get('before_re')
+            ms = list(re.finditer(anchor, text))
+            if len(ms) < nth:
+                raise Undecided('%s: proof anchor /%s/ (occurrence %d) not found' % (item_id, anchor, nth))
+            at = ms[nth - 1].end() if p.get('after_re') else ms[nth - 1].start()
+            c = Clause(p.get('label', 'proof'), p['text'] if p.get('label') else '', p.get('props', props), 'proof')
+            if p.get('ghost'):
+                block = ' ' + w.mark(item_id, c) + ' ' + p['text'].strip() + ' '
+            else:
+                block = ' ' + w.mark(item_id, c) + ' proof { ' + p['text'].strip() + ' } '
+            text = text[:at] + block + text[at:]
+            continue
         idxs = [m.start() for m in re.finditer(re.escape(anchor), text)]
         for alt in p.get('alt', []):
             # alternative spelling of the same anchor statement (e.g. with / without `mut` on a binding)
